@@ -87,7 +87,7 @@ Definition allow_list : list (string * string) :=
     ("config.kubernetes.io/merge-source",
      "kyaml Merge3 filter marker (filters.mergeSourceAnnotation): written and removed inside filters.Merge3.Filter, which krusty never calls");
     ("kustomize.config.k8s.io/id",
-     "exec/fn plugin protocol (plugins/utils.idAnnotation): set before a plugin transformer runs, deleted by UpdateResMapValues when its output is read back; external plugins are outside the modelled build path");
+     "exec/fn plugin protocol (plugins/utils.idAnnotation): set on the copy handed to a plugin transformer, deleted by UpdateResMapValues -> removeIDAnnotation from EVERY resource read back (obligation Gen_plugin_protocol_removed; oracle: builds with an exec function that renames / moves resources)");
     ("kustomize.config.k8s.io/needs-hash",
      "exec/fn plugin protocol (plugins/utils.HashAnnotation): written by plugins, consumed and deleted by UpdateResourceOptions");
     ("kustomize.config.k8s.io/behavior",
@@ -111,7 +111,11 @@ Fixpoint dedup (l : list string) : list string :=
 
 (* every annotation-like string the source defines or uses (values only) *)
 Definition annotation_like_values : list string :=
-  dedup (map snd gen_annotation_like ++ map snd gen_build_annotations).
+  dedup (map snd gen_annotation_like ++ map snd gen_build_annotations
+         ++ filter (fun v => existsb (fun p => has_prefix p v)
+                               [ "internal.config.kubernetes.io/"; "config.kubernetes.io/"; "config.k8s.io/";
+                                 "alpha.config.kubernetes.io/"; "kustomize.config.k8s.io/" ])
+                  (map snd gen_qualified_strings)).
 
 (* the internal bookkeeping keys: internal family, not allow-listed *)
 Definition internal_keys : list string :=
@@ -163,3 +167,97 @@ Definition tail_order_b : bool :=
   && str_list_eq (only_tail_steps gen_run_calls)
               ["MakeCustomizedResMap"; "applySortOrder"; "Transform";
                "RemoveBuildAnnotations"; "RemoveOriginAnnotations"; "RemoveTransformerAnnotations"].
+
+(* ---------- every qualified string of api/ and kyaml/ is classified ---------- *)
+
+Fixpoint drop_digits (s : string) : string :=
+  match s with
+  | String c s' => if is_digit c then drop_digits s' else s
+  | EmptyString => EmptyString
+  end.
+
+(* v<digits>, optionally followed by alpha<digits> / beta<digits> *)
+Definition is_version_name (s : string) : bool :=
+  match s with
+  | String "v"%char r =>
+      let r1 := drop_digits r in
+      Nat.ltb (String.length r1) (String.length r) &&
+      (String.eqb r1 "" ||
+       let tail := if has_prefix "alpha" r1 then Some (drop 5 r1)
+                   else if has_prefix "beta" r1 then Some (drop 4 r1) else None in
+       match tail with
+       | Some t => negb (String.eqb t "") && String.eqb (drop_digits t) ""
+       | None => false
+       end)
+  | _ => false
+  end.
+
+(* "<group>/<version>": an apiVersion, not a key *)
+Definition is_api_version (v : string) : bool :=
+  match split_first "/"%char v with
+  | Some (_, suffix) => is_version_name suffix
+  | None => false
+  end.
+
+(* key families that are not kustomize's; (prefix, why it is outside annotation hygiene) *)
+Definition foreign_families : list (string * string) :=
+  [ ("app.kubernetes.io/",
+     "the recommended Kubernetes LABEL keys; konfig.ManagedbyLabelKey is a label added only when buildMetadata asks for managedByLabel") ].
+
+Definition qualified_values : list string := dedup (map snd gen_qualified_strings).
+
+(* every "<domain>/<name>" string anywhere in non-test code of api/ and kyaml/ is an apiVersion, belongs to a
+   kustomize-owned key family (then it is subject to Gen_every_written_is_stripped: it occurs in
+   [annotation_like_values]) or belongs to a listed foreign family; no annotation key is concatenated at run time
+   from one of the kustomize domains *)
+Definition qualified_classified_b : bool :=
+  forallb (fun v => is_api_version v
+                    || (is_internal_key v && str_in v annotation_like_values)
+                    || existsb (fun f => has_prefix (fst f) v) foreign_families) qualified_values
+  && match gen_dynamic_key_concats with [] => true | _ => false end.
+
+(* ---------- annotation write sites, including writes through helper functions ---------- *)
+
+(* sites whose key (or whole map) is not a constant; "file:function" with the reason why no kustomize-internal key
+   can be introduced there that is not already covered by a constant site *)
+Definition dynamic_write_ok : list (string * string) :=
+  [ ("api/internal/builtins/AnnotationsTransformer.go:Transform",
+     "the user's commonAnnotations map");
+    ("api/internal/builtins/PatchJson6902Transformer.go:Transform",
+     "puts back the internal annotations the resource carried before the JSON patch (kioutil.GetInternalAnnotations): existing keys only");
+    ("api/internal/builtins/PatchTransformer.go:transformJson6902",
+     "same restore loop as PatchJson6902Transformer");
+    ("api/internal/generators/utils.go:copyLabelsAndAnnotations",
+     "the user's generator options annotations");
+    ("api/resource/resource.go:CopyMergeMetaDataFieldsFrom",
+     "union of the existing annotations of two resources, build annotations taken from the absorbed-into resource (mergeStringMapsWithBuildAnnotations): existing keys only");
+    ("kyaml/kio/byteio_reader.go:decode",
+     "writes the entries of ByteReader.SetAnnotations: the constant index / seqindent keys set in the same function and the path keys of pkgio_reader (constant sites); kustomize's loader uses kio.FromBytes with OmitReaderAnnotations");
+    ("kyaml/kio/kioutil/kioutil.go:CopyInternalAnnotations",
+     "copies existing internal annotations from one node to another (kyaml function framework): existing keys only");
+    ("kyaml/kio/pkgio_reader.go:Read", "hands LocalPackageReader.SetAnnotations (caller supplied + the constant path keys) to the ByteReader");
+    ("kyaml/kio/pkgio_reader.go:readFile", "same map as in Read");
+    ("kyaml/yaml/rnode.go:GetMeta", "not a write to a document: fills the ResourceMeta struct while reading") ].
+
+Definition write_site_ok (s : string * string * string * string) : bool :=
+  let '(file, fn, kind, text) := s in
+  if String.eqb kind "const"
+  then negb (is_internal_key text) || allowed text || str_in text (run_stripped_keys [])
+  else str_in (file ++ ":" ++ fn) (map fst dynamic_write_ok).
+
+(* every place that writes an annotation key — directly, through yaml.SetAnnotation, through a map later stored
+   with SetAnnotations, or through a helper that forwards a parameter as the key — writes a constant that is
+   removed by krusty.Run (or is allow-listed / not kustomize's), or is one of the reviewed dynamic sites *)
+Definition write_sites_covered_b : bool := forallb write_site_ok gen_annotation_writes.
+
+(* ---------- the plugin protocol keys are allow-listed only because the protocol removes them on every path ---------- *)
+
+(* every allow-listed key of the exec / KRM-function plugin protocol family has a removal that the translator found to
+   be evaluated unconditionally for every resource (gen_plugin_protocol_removals): idAnnotation by
+   UpdateResMapValues -> removeIDAnnotation on every resource read back from the plugin (not only on those whose id
+   the old map already holds), HashAnnotation / BehaviorAnnotation by UpdateResourceOptions *)
+Definition plugin_protocol_removed_b : bool :=
+  forallb (fun k => is_api_version k
+                    || existsb (fun e => let '(key, _, st) := e in String.eqb key k && String.eqb st "unconditional")
+                               gen_plugin_protocol_removals)
+          (filter (fun k => has_prefix "kustomize.config.k8s.io/" k) (map fst allow_list)).
